@@ -13,7 +13,7 @@ from pv.mon import contracts
 
 ID = 'C03'
 LEVEL = 'exploration'
-TECHNIQUE = 'exhaustive decision-table monitor: real Enforcer.enforce vs reference function of the statement, every row'
+TECHNIQUE = 'exhaustive decision-table monitor: real Enforcer.enforce vs reference function of the statement, every row; overlapping decisions and decisions during a reload under a deterministic line-level thread scheduler (sys.monitoring)'
 RULE = ('rows = (rule set over names {a,b,default} each absent/@/!/role:x/role:y: 216 sets incl. the empty one and null-valued entries, which are defined and deny) x '
         '(default-rule configuration: unset, constructor name default/b/ghost, constructor check object True/False/Role, '
         'option policy_default_rule = b / empty) x (rules installed by set_rules / constructor / policy file, as a plain mapping or as a Rules object carrying a default of its own) x '
